@@ -9,9 +9,12 @@ THEOREMS = ['MM.Search.' + n for n in ('C09_exhaustive_total', 'C09_greedy_total
 TRUSTED_BASE = SEARCH_TRUST + ['exceptions born inside pandas/numpy/scipy are not in the model (partial): covered by the exception-class correspondence and the oracle only']
 
 
-def run(out, tier, model_ok=True):
+SUPPORTS_DEEPEN = True
+
+
+def run(out, tier, model_ok=True, deepen=False):
   out.rule = 'oracle: any exception other than ValueError escaping a search on an accepted input whose analysis window holds >= n_test + 3 points is a violation; non-trivial/distinct = instances that are empty-result, <= 2 geos, rejected at construction or raised'
-  run_search_prop(out, PROP, se.judge_c09, tier, model_ok)
+  run_search_prop(out, PROP, se.judge_c09, tier, model_ok, deepen=deepen)
 
 
 def replay(out, path, model_ok=True):
